@@ -1,8 +1,116 @@
 import GraafVerif.Driver.Common
-/-! Driver handlers for property C20 (ops the harness module `ops/c20.rs` emits). -/
-namespace GraafVerif.Driver.H20
-open GraafVerif GraafVerif.Driver
+import GraafVerif.Driver.H01
+/-!
+# Driver handlers for C20: `eq_pair <repr> [<startA> <opsA>] [<startB> <opsB>] <mut>`
 
-def handlers : List (String × Handler) := []
+MODEL side: both histories are replayed on the representation model; `==` is structural
+equality of the model structures, `cmp` the derived lexicographic order (`X.cmp`), `clone` the
+identity on values, hash equality = structural equality (for unequal structures the hash
+comparison is not determined by the model and is copied from the observation).
+
+ORACLE side (on the implementation's output only): `==` ⇔ equal observations
+(`order / vertices / arcs(+weights)`); equal ⇒ equal hashes ∧ `cmp = equal`; both observations
+agree with the plain arc-set spec; a clone is equal to its original; mutating the clone leaves
+the original's observation unchanged and vice versa; the mutated side shows the spec's result.
+-/
+namespace GraafVerif.Driver.H20
+open GraafVerif GraafVerif.Driver GraafVerif.Repr GraafVerif.ReprSpec GraafVerif.Driver.H01
+
+def replay {σ : Type} (vw : View σ) (s : σ) (ops : List HOp) : Option σ :=
+  ops.foldlM (fun s op => (vw.step s op).map (·.1)) s
+
+def obs3 {σ : Type} (vw : View σ) (s : σ) : V :=
+  .l [V.ofNat (vw.order s), V.ofNats (vw.verts s), showArcs vw.weighted (vw.arcs s)]
+
+def ordToV : Ordering → V
+  | .lt => .a "less"
+  | .eq => .a "equal"
+  | .gt => .a "greater"
+
+/-- The model's rendering of the whole output. `obsHashEq` = what the implementation said about
+the hashes (used only when the structures differ). -/
+def modelPair {σ : Type} [DecidableEq σ] (vw : View σ) (cmp : σ → σ → Ordering)
+    (a0 b0 : Option σ) (opsA opsB : List HOp) (m : HOp) (obsHashEq : V) : Option (List V) := do
+  let a ← replay vw (← a0) opsA
+  let b ← replay vw (← b0) opsB
+  let eq := decide (a = b)
+  let head := V.l [V.ofBool eq, ordToV (cmp a b), if eq then V.ofBool true else obsHashEq]
+  let (c, ret) ← vw.step a m
+  let (b', ret2) ← vw.step b m
+  pure [head, obs3 vw a, obs3 vw b,
+        .l [V.ofBool true, outToV ret, obs3 vw a, obs3 vw c],
+        .l [V.ofBool true, outToV ret2, obs3 vw b', obs3 vw b]]
+
+def specSide (d : GDesc) (ops : List HOp) (m : HOp) : Option (V × Out × V) := do
+  let s0 ← LSpecD.ofDesc d
+  let vw := viewSpec s0.weighted
+  let s ← replay vw s0 ops
+  let (s', ret) ← vw.step s m
+  pure (obs3 vw s, ret, obs3 vw s')
+
+def oracle (obs : List V) (da db : GDesc) (opsA opsB : List HOp) (m : HOp) : Option String :=
+  match obs with
+  | [.l [eq, cmp, heq], oa, ob, .l [ceq, ret, oa', oc], .l [ceq2, ret2, ob', oc2]] =>
+    match specSide da opsA m, specSide db opsB m with
+    | some (sa, sret, sa'), some (sb, sret2, sb') =>
+      let same := oa == ob
+      if eq != V.ofBool same then some s!"== is {eq} but observations equal = {same}"
+      else if same && heq != V.ofBool true then some "equal digraphs hash differently"
+      else if same && cmp != V.a "equal" then some s!"equal digraphs compare {cmp}"
+      else if oa != sa then some s!"A disagrees with the arc-set spec: {(toString sa).take 300}"
+      else if ob != sb then some s!"B disagrees with the arc-set spec: {(toString sb).take 300}"
+      else if ceq != V.ofBool true || ceq2 != V.ofBool true then some "clone != original"
+      else if oa' != oa then some "mutating the clone changed the original"
+      else if oc2 != ob then some "mutating the original changed the clone"
+      else if ret != outToV sret || oc != sa' then some s!"mutated clone wrong: spec {outToV sret} {(toString sa').take 300}"
+      else if ret2 != outToV sret2 || ob' != sb' then some s!"mutated original wrong: spec {outToV sret2} {(toString sb').take 300}"
+      else none
+    | _, _ => none  -- a start description the spec rejects: nothing is claimed (the model must agree)
+  | [.a "panic"] => none  -- the build panicked: correspondence only
+  | _ => some "malformed output"
+
+/-- `[desc ops]` or `[desc ops via]` (`via`: the start was built in another representation and
+converted with `From`; a conversion preserves the abstract digraph — C16 — so by C20's
+`Determined` the structure is the one built directly, which is what the model builds). -/
+def parseHist : V → Option (GDesc × List HOp × Option String)
+  | .l [d, ops] => do pure (← GDesc.parse d, ← V.listOf? HOp.parse ops, none)
+  | .l [d, ops, .a via] =>
+    if via == "al" || via == "am" || via == "mx" || via == "el" then
+      do pure (← GDesc.parse d, ← V.listOf? HOp.parse ops, some via)
+    else none
+  | _ => none
+
+def hEqPair : Handler := fun _ args obs =>
+  match args with
+  | [.a repr, ha, hb, m] => do
+    let (da, opsA, viaA) ← parseHist ha
+    let (db, opsB, viaB) ← parseHist hb
+    if (viaA.isSome || viaB.isSome) && (repr == "wu" || repr == "wi") then none
+    let m ← HOp.parse m
+    if da.repr != repr || db.repr != repr then none
+    if !((m :: opsA ++ opsB).all (supported repr)) then none
+    let obsHashEq : V := match obs with
+      | .l [_, _, h] :: _ => h
+      | _ => .a "?"
+    let model : Option (List V) ← match repr with
+      | "al" => some (modelPair viewAL AdjList.cmp (buildAL da) (buildAL db) opsA opsB m obsHashEq)
+      | "am" => some (modelPair viewAM AdjMap.cmp (buildAM da) (buildAM db) opsA opsB m obsHashEq)
+      | "mx" => some (modelPair viewMX AdjMatrix.cmp (buildMX da) (buildMX db) opsA opsB m obsHashEq)
+      | "el" => some (modelPair viewEL EdgeList.cmp (buildEL da) (buildEL db) opsA opsB m obsHashEq)
+      | "wu" | "wi" => some (modelPair viewW AdjListW.cmp (buildW da) (buildW db) opsA opsB m obsHashEq)
+      | _ => none
+    let modelOut := model.getD [V.a "panic"]
+    let propFail := oracle obs da db opsA opsB m
+    let (eqTag, cmpTag, retTag) := match obs with
+      | .l [eq, cmp, _] :: _ :: _ :: .l [_, ret, _, _] :: _ =>
+        (if eq == V.ofBool true then "equal" else "differ", s!"cmp-{cmp}", s!"mut-{ret}")
+      | _ => ("?", "?", "?")
+    let detour := (opsA ++ opsB).any (fun o => match o with | .rem .. | .tog .. => true | _ => false)
+    let tags := [repr, eqTag, cmpTag, retTag, sizeTag (min da.order 40)] ++ (if detour then ["detours"] else ["plain"])
+      ++ (if viaA.isSome || viaB.isSome then ["via-conversion"] else ["direct"])
+    pure (classify obs modelOut propFail (nt := opsA.length + opsB.length ≥ 2) tags)
+  | _ => none
+
+def handlers : List (String × Handler) := [("eq_pair", hEqPair)]
 
 end GraafVerif.Driver.H20
